@@ -6,6 +6,9 @@ ROOT = os.path.dirname(os.path.dirname(os.path.abspath(__file__)))
 
 # id -> (level, technique, level text, level note, design ref)
 CHECKS = {
+    "C07": ("exploration", "runtime monitoring: differential oracle — visits (path, node value, reason) and link loads recorded at the callback and storage boundaries of WalkAdv/WalkMatching are compared with a reference denotational walk of the selector AST over the abstract graph; each selector compiled three ways (builder, spec tree, DAG-JSON text)",
+            "Held on the (graph, selector) pairs observed, for all clause kinds incl. recursion limits, edges, stop-at and subset matchers. Sampling; the oracle is a model written for this task (see level_note).",
+            "Trusted: internal/ref/sel (specified semantics; repository doc comments where the spec is silent). A stricter-than-specified model would show as a false alarm; every disagreement seen on the unchanged tree was examined (DESIGN §4).", "DESIGN.md §2 C07"),
     "C14": ("exploration", "runtime monitoring: during walks every visited (path, node) is resolved back from the root three ways (Get, Focus, stepwise LookupBySegment with link loading) and compared with the visited node and with a reference resolver over the abstract graph; paths are kept beyond the callback and resolved again after the walk; all positions enumerated from the nodes' own keys/indices; perturbed (partially existing) paths must fail exactly when the reference says so; String/ParsePath round trip",
             "Held on the graphs, walks and paths observed. Sampling of graphs; per graph all positions (capped at 400) and all visits are checked.",
             "Trusted: the reference resolver in internal/props/c14.go, internal/obs.", "DESIGN.md §2 C14"),
